@@ -105,6 +105,21 @@ def _dispatch(ctx):
     D = _ex(ctx, 'file_comparison_result')
     table = {}
     fall = []
+    eq0 = eq_const_fact
+
+    def eq_const_fact(t):
+        # named constants (class-level, module-level, enum member names)
+        # stand for their literal
+        if isinstance(t, ast.Compare) and len(t.ops) == 1:
+            l, r = t.left, t.comparators[0]
+            cl = None if isinstance(l, ast.Constant) else \
+                ctx.prog.const_value(l, D)
+            cr = None if isinstance(r, ast.Constant) else \
+                ctx.prog.const_value(r, D)
+            if cl is not None or cr is not None:
+                t = ast.Compare(left=cl or l, ops=t.ops,
+                                comparators=[cr or r])
+        return eq0(t)
     for conds, st in cond_paths(D.node.body):
         lits = []
         allneg = bool(conds)
@@ -417,6 +432,43 @@ def r13_5(ctx, rc):
     r7_1(ctx, rc)
 
 
+def r13_6(ctx, rc):
+    """A comparison sample (stat or digest) is only taken of a file the
+    virtual view has just declared visible: in ``read`` the kernel
+    ``_is_file_no_read`` is asked before ``file_comparison_result`` on every
+    path - sampling first leaves a window in which the file is rebuilt (the
+    stale sample is recorded as current) and memoises digests of outputs
+    that are still being written; and the kernel hides an output while its
+    function runs (R4.5)."""
+    from .c04 import r4_5
+    r4_5(ctx, rc)
+    ex = ctx.R.executor
+    Rd = ctx.E.func(ex + '.read')
+    sg = ctx.E.super(Rd, lambda g: False)
+    kernel = ex + '._is_file_no_read'
+    sample = ex + '.file_comparison_result'
+    ctx.E.func(kernel)
+    ctx.E.func(sample)
+    sites = [x for x in sg.nodes if Q.is_call(x, sample)]
+    key = 'read asks the virtual view before it samples the file'
+    if not sites:
+        raise AnalysisError('read takes no comparison sample')
+    w = Q.first_unguarded(sg, [sg.entry], lambda x: Q.is_done(x, kernel),
+                          lambda x: Q.is_call(x, sample))
+    if w:
+        rc.violation(
+            'sample-before-visibility | ' + Rd.qualname,
+            'read can take the METADATA/HASH sample of the real file before '
+            'it asked whether the file is visible in the virtual state: a '
+            'file that is being (re)built is sampled and memoised, and a '
+            'sample taken before a concurrent rebuild is recorded as the '
+            'current one', sg.nodes[w[-1]].where(), sg.describe_path(w),
+            key=key)
+    else:
+        rc.ok({'order': '_is_file_no_read, then file_comparison_result'},
+              key=key)
+
+
 RULES = [
     ('R13.1', 'comparison dispatch is exhaustive over the enum', r13_1),
     ('R13.2', 'METADATA observes exactly size and mtime_ns', r13_2),
@@ -424,4 +476,5 @@ RULES = [
      r13_3),
     ('R13.4', 'the recorded mode is the replayed mode', r13_4),
     ('R13.5', 'paths are normalised before they key memo and records', r13_5),
+    ('R13.6', 'samples are taken of visible, finished files only', r13_6),
 ]
